@@ -169,7 +169,7 @@ def load_scalar(st, o, offterm, ct):
         if o.weak and isinstance(o.ptr_fields, dict) and c in o.ptr_fields:
             tg = o.ptr_fields[c]
             return tg[0] if len(tg) == 1 else ('pset', ('sym', st.fresh('wp'), 0, 0), tuple(tg))
-        return ('sym', 'unkptr:%s+%s' % (o.id, short(offterm)), 0, INF)
+        return ('sym', (st.fresh('weakptr:%s+%s' % (o.id, short(offterm))) if o.weak else 'unkptr:%s+%s' % (o.id, short(offterm))), 0, INF)
     if t[0] in ('ptr', 'pset', 'fn'):
         return t
     return fit_int(st, t, ct, from_unsigned_bytes=True)
